@@ -1530,11 +1530,19 @@ static void do_source_file(const char *filename_in,
    file_mem fm;
    string   filename_tmp;
 
+   // what '-l' selected (0 if not given), before any file was parsed
+   static const size_t lang_flags_from_cli = cpd.lang_flags;
+
    // Do some simple language detection based on the filename extension
    if (  !cpd.lang_forced
       || cpd.lang_flags == 0)
    {
       cpd.lang_flags = language_flags_from_filename(filename_in);
+   }
+   else
+   {
+      // the tokenizer may have widened the language while parsing the previous file
+      cpd.lang_flags = lang_flags_from_cli;
    }
 
    // Try to read in the source file
